@@ -186,6 +186,7 @@ func generatedClasses(r *Rng) map[string][]byte {
 	for i, nm := range names {
 		type arg struct {
 			Type []string `json:"type"`
+			Key  string   `json:"key,omitempty"`
 		}
 		type meth struct {
 			Name string `json:"name"`
@@ -199,7 +200,14 @@ func generatedClasses(r *Rng) map[string][]byte {
 			for k := 0; k < r.Range(1, 4); k++ {
 				m := meth{Name: r.Pick(mnames)}
 				for a := 0; a < r.Intn(3); a++ {
-					m.Args = append(m.Args, arg{[]string{r.Pick(types)}})
+					m.Args = append(m.Args, arg{Type: []string{r.Pick(types)}})
+				}
+				if r.Chance(1, 3) {
+					// keyword parameters: the same keyword name with another type in a parent,
+					// a child or an overload is one declaration each, whatever loads first
+					for _, kw := range []string{"limit:", "mode:"}[:r.Range(1, 2)] {
+						m.Args = append(m.Args, arg{Type: []string{r.Pick(types)}, Key: kw})
+					}
 				}
 				if m.Args == nil {
 					m.Args = []arg{}
@@ -208,7 +216,7 @@ func generatedClasses(r *Rng) map[string][]byte {
 				ms = append(ms, m)
 				if r.Chance(1, 3) { // an overload of the same name
 					o := m
-					o.Args = append(append([]arg(nil), m.Args...), arg{[]string{r.Pick(types)}})
+					o.Args = append(append([]arg(nil), m.Args...), arg{Type: []string{r.Pick(types)}})
 					o.Ret.Type = []string{r.Pick(types)}
 					ms = append(ms, o)
 				}
@@ -229,6 +237,14 @@ func generatedClasses(r *Rng) map[string][]byte {
 		}
 		b, _ := json.MarshalIndent(obj, "", "  ")
 		out["zz_gen_"+strings.ToLower(nm)+".json"] = b
+		if i == 0 && r.Chance(1, 3) {
+			// a class of the same name in a second frame, with methods of its own: which frame a
+			// bare reference to the name means is a property of the declarations, not of the
+			// order in which their files arrive
+			twin := map[string]any{"frame": "Builtin::Geo", "class": nm, "instance_methods": mk(), "class_methods": []meth{newM}}
+			tb, _ := json.MarshalIndent(twin, "", "  ")
+			out["zz_geo_"+strings.ToLower(nm)+".json"] = tb
+		}
 	}
 	return out
 }
@@ -263,6 +279,19 @@ func probeProgram(r *Rng, cfg map[string][]byte, focus map[string]bool) []byte {
 		sb.WriteString("v" + fmt.Sprint(k) + " = " + g.builtinCall() + "\n")
 		if r.Chance(1, 2) {
 			sb.WriteString("v" + fmt.Sprint(k) + "." + r.Pick([]string{"to_s", "size", "alpha", "beta", "name", "zork"}) + "\n")
+		}
+		if r.Chance(1, 4) {
+			// keyword calls on instances of generated classes (a child, its parent)
+			recv := r.Pick([]string{"Gena.new", "Genb.new", "Genc.new", "Gend.new"})
+			m := r.Pick([]string{"alpha", "beta", "gamma", "size", "name"})
+			sb.WriteString(fmt.Sprintf("k%d = %s.%s(%s)\nk%d.zork\n", k, recv, m, r.Pick([]string{"limit: 1", "limit: \"s\"", "mode: 1.5", "limit: 1, mode: :s", "1, limit: true", "mode: [1]"}), k))
+		}
+		if r.Chance(1, 5) {
+			// a user class that inherits from (or includes) a configured class and uses what it
+			// inherits: the parent is named by its bare class name
+			parent := r.Pick([]string{"Gena", "Genb", "Genc", "Integer", "String", "Array", "Parent", "Child"})
+			m := r.Pick([]string{"alpha", "beta", "gamma", "size", "name", "to_s", "inspect"})
+			sb.WriteString(fmt.Sprintf("class Usr%d < %s\n  def probe\n    q = %s\n    q.zork\n  end\nend\nu%d = Usr%d.new\nz%d = u%d.%s\nz%d.zork\n", k, parent, m, k, k, k, k, m, k))
 		}
 		if r.Chance(1, 3) {
 			// methods Object declares, called on instances of generated classes (which may
@@ -301,7 +330,7 @@ func (o *cfgLayout) Make(c *Ctx, i int) *Case {
 		canon[n] = b
 	}
 	cs := &Case{Prop: "C19", Kind: "layout", Index: i, Cfg: "canon", Meta: map[string]string{}}
-	if r.Chance(1, 3) {
+	if r.Chance(1, 2) {
 		for n, b := range generatedClasses(r) {
 			canon[n] = b
 		}
